@@ -228,6 +228,39 @@ func checkBytes(b []byte, isNil bool, seed uint32, prefix int) error {
 		hll.MurmurHashByte(in) != refMurmur32(b, murmurDefaultSeed) || hll.MurmurHashLongByte(in, int32(len(b))) != refMurmur64A(b, murmurDefaultSeed) {
 		return fmt.Errorf("second evaluation of a hash of %s differs from the first", show(b))
 	}
+	// the caller re-uses its buffer: the same slice, overwritten in place, is hashed again (a scratch buffer filled with
+	// the next name); the value is that of the new content, also for an equal string and an equal fresh slice (seed C15-s22)
+	if !isNil && len(b) > 0 {
+		pos := len(b) / 2
+		b[pos] ^= 0x5a
+		defer func() { b[pos] ^= 0x5a }()
+		nc, n64, nv2 := int32(crc32.ChecksumIEEE(b)), refHash64(b), refHash64v2(b)
+		if got := hash.Hash(b); got != nc {
+			return fmt.Errorf("Hash of a buffer that was hashed before and then overwritten in place (%s -> %s) = %d, CRC-32/IEEE of its content = %d", show(keep), show(b), got, nc)
+		}
+		if got := hash.Hash64(b); got != n64 {
+			return fmt.Errorf("Hash64 of a buffer overwritten in place (%s -> %s) = %d, reference %d", show(keep), show(b), got, n64)
+		}
+		if a, c := hash.Hash64v2(b), hash.Hash64V2(b); a != nv2 || c != nv2 {
+			return fmt.Errorf("Hash64v2/Hash64V2 of a buffer overwritten in place (%s -> %s) = %d/%d, reference %d", show(keep), show(b), a, c, nv2)
+		}
+		if got, want := hll.MurmurHashByte(b), refMurmur32(b, murmurDefaultSeed); got != want {
+			return fmt.Errorf("MurmurHashByte of a buffer overwritten in place (%s -> %s) = %#x, reference %#x", show(keep), show(b), got, want)
+		}
+		if got, want := hll.MurmurHashLongByte(b, int32(len(b))), refMurmur64A(b, murmurDefaultSeed); got != want {
+			return fmt.Errorf("MurmurHashLongByte of a buffer overwritten in place (%s -> %s) = %#x, reference %#x", show(keep), show(b), got, want)
+		}
+		ns := string(b)
+		if got := hash.HashStr(ns); got != nc {
+			return fmt.Errorf("HashStr(%s) = %d after a buffer with that content was hashed, CRC-32/IEEE = %d", show(b), got, nc)
+		}
+		if got := hash.Hash(append([]byte(nil), b...)); got != nc {
+			return fmt.Errorf("Hash(%s) of a fresh slice = %d after a re-used buffer with that content was hashed, CRC-32/IEEE = %d", show(b), got, nc)
+		}
+		if hash.Hash64Str(ns) != n64 || hash.GetLongHash(ns) != nv2 || hash.Hash64StrV2(ns) != nv2 {
+			return fmt.Errorf("a 64-bit string-form hash of %s differs from the byte form after a re-used buffer with that content was hashed", show(b))
+		}
+	}
 	return nil
 }
 
